@@ -89,7 +89,7 @@ def exec_stack(ops, stats=None):
                 raise ValueError(f"bad op {op}")
             # ---- observations after every step
             n = len(m)
-            if n > 48 and name in ("push", "pop", "peek") and i % 8:
+            if n > 48 and name in ("push", "pop", "peek") and i % (8 if n < 512 else 128 if n < 4096 else 4096):
                 # large stacks (the `big` histories): push/pop/peek only touch the top, so most of
                 # them are observed through len, emptiness, both ends and a window below the top;
                 # every eighth step and every other operation is observed in full
@@ -507,6 +507,25 @@ def gen_stack(rng: random.Random, probes: dict) -> list:
             restore()  # and once more with no snapshot left: must empty the stack
         probes["shape_e"] += 1
 
+    if mode > 0.9994:
+        # huge: ONE run of pushes past a power-of-two size (a packed or fixed-width record
+        # overflows there), a snapshot, a few operations around it, and the unwinding
+        h = rng.choice((300, 1100, 4200, 33000, 66000, 70000, 132000)) + rng.randint(0, 40)
+        for _ in range(h):
+            push()
+        for _ in range(rng.randint(1, 4)):
+            snapshot()
+            for _ in range(rng.randint(0, 3)):
+                (push if rng.random() < 0.5 else pop)()
+        for _ in range(rng.randint(1, 6)):
+            rng.choice((restore, restore, drop, pop, push, snapshot))()
+        if rng.random() < 0.3:
+            clear()
+        for _ in range(len(snaps)):
+            (restore if rng.random() < 0.7 else drop)()
+        probes["gen_huge"] += 1
+        return ops
+
     if big:
         # big: long histories made of RUNS (k pushes, k pops, k snapshots, ...) with k log-uniform
         # up to a few hundred, so that stack height, snapshot depth and the number of items
@@ -647,6 +666,9 @@ def gen_state(rng: random.Random, probes: dict) -> list:
         # big: long histories, deep bracket nesting (thresholds on history length / depth)
         n = rng.choice((200, 500, 1000))
         max_nest = rng.choice((30, 120, 400))
+        if rng.random() < 0.15:
+            # more open checkpoints than the interpreter has frames
+            n, max_nest = 3200, 1400
         probes["gen_big"] += 1
     br: list[str] = []
     usize = [0]
@@ -671,6 +693,9 @@ def gen_state(rng: random.Random, probes: dict) -> list:
         w["checkpoint"] = rng.choice((4, 6, 9))
         w["upush"] = rng.choice((2, 4, 8))
         w["uclear"] = rng.choice((0, 0, 0, 1))
+    if max_nest > 1000:
+        w.update({k: min(v, 1) for k, v in w.items()})
+        w["checkpoint"] = 14
     kinds = list(w)
     weights = [w[k] for k in kinds]
     # sizes are tracked loosely: the executor skips infeasible pops, so over-approximate
@@ -774,7 +799,7 @@ def run_batch(job) -> dict:
     gc.disable()
     subject = job["subject"]
     rng = random.Random(job["seed"])
-    probes = {k: 0 for k in ("gen_uniform_short", "shape_a", "shape_b", "shape_c", "shape_d", "shape_e", "restore_without_snapshot", "gen_big", "big_height_ge_100", "big_depth_ge_50", "big_popped_below_level_ge_50")}
+    probes = {k: 0 for k in ("gen_uniform_short", "shape_a", "shape_b", "shape_c", "shape_d", "shape_e", "restore_without_snapshot", "gen_big", "gen_huge", "big_height_ge_100", "big_depth_ge_50", "big_popped_below_level_ge_50")}
     st = {"steps": 0, "nontrivial_flag": False}
     distinct_nt: set[int] = set()
     abstract: set[int] = set()
